@@ -18,15 +18,18 @@ FUNCS = ('ref', 'modvar', 'smartquery.functions.FUNCTIONS')
 
 def scope_list_attr(F) -> str:
     """Name of the attribute holding the scope stack (set by __init__ to [initial scope])."""
-    q = SD + '.__init__'
-    fi = F.func(q)
-    for p in SymExec(F, fi).run():
-        for e in p.events:
-            if e.kind == 'store_attr' and freeze(e.obj) == ('param', om.self_param(F, q)):
-                v = freeze(e.value)
-                if isinstance(v, tuple) and v and v[0] == 'list' and len(v) == 2 and v[1][0] == 'param':
-                    return e.attr
-    raise AnalysisError('%s: cannot find the scope-stack attribute (expected self.<x> = [initial_scope])' % q)
+    for mn in ('__init__', '__post_init__'):
+        q = SD + '.' + mn
+        if q not in F.functions:
+            continue
+        fi = F.func(q)
+        for p in SymExec(F, fi).run():
+            for e in p.events:
+                if e.kind == 'store_attr' and freeze(e.obj) == ('param', om.self_param(F, q)):
+                    v = freeze(e.value)
+                    if isinstance(v, tuple) and v and v[0] == 'list' and len(v) == 2 and v[1][0] == 'param':
+                        return e.attr
+    raise AnalysisError('%s: cannot find the scope-stack attribute (expected self.<x> = [initial_scope] in __init__ / __post_init__)' % SD)
 
 
 def is_copy_of_functions(t) -> Optional[bool]:
@@ -72,7 +75,7 @@ def check(chk: Check) -> None:
     # The lookup methods are evaluated on a stack of three distinct symbolic scopes [S0, S1, S2] (S2 innermost): whatever
     # way the walk is written (reversed(), [::-1], index loops, helpers), the outcomes must be the decision list
     #   key in S2 -> S2[key];  else key in S1 -> S1[key];  else key in S0 -> S0[key];  else LookupError.
-    S = [('sym', 'S%d' % i, 'scope', None, ('dict',)) for i in range(3)]
+    S = [('new', '<scope S%d>' % i, (), 990000 + i) for i in range(3)]      # three distinct objects created before the call
     for mn in ('__getitem__', 'get', '__contains__'):
         q = SD + '.' + mn
         if q not in F.functions:
@@ -163,7 +166,7 @@ def check(chk: Check) -> None:
     chk.require(not problems, R1, q, fi.where, '; '.join(sorted(set(problems))) or 'stores into %s[-1] only' % scopes)
     # no other method writes a non-top scope
     for mn, mnode in F.cls(SD).methods.items():
-        if mn in ('__setitem__', '__init__'):
+        if mn in ('__setitem__', '__init__', '__post_init__'):
             continue
         fq = SD + '.' + mn
         selft2 = ('param', om.self_param(F, fq)) if mnode.args.args else None
@@ -258,7 +261,7 @@ def _r2(chk: Check, R2: str, scopes: str) -> None:
     setup_fn = PARSER + '.eval'
     units: List[Tuple[str, FuncInfo, List[Path]]] = []
     for q, fi in sorted(F.functions.items()):
-        if '.ply' in fi.module.name or q in (SD + '.push_scope', SD + '.pop_scope', SD + '.__init__'):
+        if '.ply' in fi.module.name or q in (SD + '.push_scope', SD + '.pop_scope', SD + '.__init__', SD + '.__post_init__'):
             continue
         src = ast.dump(fi.node)
         if 'push_scope' not in src and scopes not in src and 'pop_scope' not in src and q != SD + '.make_scope':
@@ -503,11 +506,14 @@ def _r5(chk: Check, R5: str) -> None:
                     if isinstance(cm, tuple) and cm and cm[0] == 'call' and cm[2][0] == 'attr' and cm[2][2] == 'make_scope' \
                             and om.carries(cm[2][1], stt):
                         arg = cm[3][0] if cm[3] else None
-                        if isinstance(arg, tuple) and arg and (arg[0] == 'dict' or (arg[0] == 'comp' and arg[1] == 'dict') or (
-                                arg[0] == 'call' and arg[2] == ('ref', 'builtin', 'dict'))):
+                        pairs = common.scope_bindings(arg, cp.events)
+                        if pairs is not None:
                             ok = True
-                            if not om.mentions(arg, ('param', '*' + (c.node.args.vararg.arg if c.node.args.vararg else ''))) and \
-                                    not any(om.mentions(arg, ('param', a.arg)) for a in c.node.args.args):
+                            vals = tuple(v for _, v in pairs)
+                            # a loop over the arguments taken zero times leaves the dict empty: that path binds nothing to bind
+                            vals += tuple(freeze(x.d.get('iter')) for x in cp.events if x.kind == 'loop_skip')
+                            if not om.mentions(vals, ('param', '*' + (c.node.args.vararg.arg if c.node.args.vararg else ''))) and \
+                                    not any(om.mentions(vals, ('param', a.arg)) for a in c.node.args.args):
                                 problems.append('the pushed scope `%s` does not bind the actual arguments' % show(arg))
                         else:
                             problems.append('make_scope is given %s, not a fresh dict of the parameters' % show(arg))
@@ -517,11 +523,10 @@ def _r5(chk: Check, R5: str) -> None:
                     scopes_attr = scope_list_attr(F)
                     before = cp.events[:cp.events.index(b)]
                     for x in before:
-                        if x.kind == 'call' and x.resolved == SD + '.push_scope' and om.carries(freeze(x.func)[1], stt):
+                        if x.kind == 'call' and (x.resolved == SD + '.push_scope' or (x.resolved is None and _is_push(x, scopes_attr) is not None)) \
+                                and isinstance(freeze(x.func), tuple) and freeze(x.func)[0] == 'attr' and om.carries(freeze(x.func)[1], stt):
                             arg = freeze(x.args)[0] if x.args else None
-                            while isinstance(arg, tuple) and arg and arg[0] == 'phi':
-                                arg = arg[3]            # a dict filled in a loop is still the fresh dict it started as
-                            if isinstance(arg, tuple) and arg and (arg[0] == 'dict' or (arg[0] == 'comp' and arg[1] == 'dict')):
+                            if common.scope_bindings(arg, cp.events) is not None:
                                 popped = [y for y in before if _is_pop(y, scopes_attr) is not None and y.eid > x.eid]
                                 if not popped:
                                     ok = True
